@@ -21,7 +21,7 @@ func TestC03(t *testing.T) {
 	shard, nshards, child := ev.Shard()
 	if !child {
 		cov := run.RunShards("TestC03", ev.Workers())
-		run.Assume("faults are injected at the storage interface the engine calls (Manager / Traverser): the k-th call in execution order fails, transiently or persistently, with a generic error or context.DeadlineExceeded",
+		run.Assume("faults are injected at the storage interface the engine calls (Manager / Traverser): the k-th call in execution order fails, transiently or persistently, with a generic error, context.DeadlineExceeded or context.Canceled (a cancelled QUERY: the request context itself stays alive)",
 			"'fault-free result' is the result of the same schedule without the fault (engine instrumented, deterministic)",
 			"storage = in-memory stand-in bound to the SQL persister by C01's conformance part")
 		run.Finish(cov)
@@ -37,7 +37,7 @@ func TestC03(t *testing.T) {
 		complete                                               bool
 	}
 	cov.complete = true
-	kinds := []error{memstore.ErrInjected, context.DeadlineExceeded}
+	kinds := []error{memstore.ErrInjected, context.DeadlineExceeded, context.Canceled}
 
 	judgeFault := func(sc *Scn, base, o CheckOut, plan memstore.FaultPlan, mode string, choices []int) {
 		rep := sc.Replay()
@@ -125,14 +125,14 @@ func TestC03(t *testing.T) {
 		}
 	}
 	// SQL layer: the same engine over the REAL persister and traverser; the k-th SQL statement of the
-	// check fails inside the database/sql driver (every k, generic error and deadline exceeded).
+	// check fails inside the database/sql driver (every k; generic error, deadline exceeded and cancelled).
 	{
 		tap := sqlfault.Attach("")
-		sqlLeaves := []int{LIncA, LTrvAP}
+		sqlLeaves := []int{LIncA, LIncB, LTrvAP}
 		sqlScns := sCatalogue(2, sqlLeaves)
 		lastCfg = nil
 		for i, sc := range sqlScns {
-			if i%nshards != shard || sc.Graph == "none" || sc.Graph == "direct" {
+			if i%nshards != shard || sc.Graph == "none" {
 				continue
 			}
 			if deadlinePassed(deadline) {
@@ -236,7 +236,7 @@ func TestC03(t *testing.T) {
 		}
 	}
 	if shard == 0 {
-		run.Sample(map[string]any{"scenario": scns[5].Replay(), "faults": "k-th storage call fails, k = 1..N, x {transient, persistent} x {generic, deadline exceeded}"})
+		run.Sample(map[string]any{"scenario": scns[5].Replay(), "faults": "k-th storage call fails, k = 1..N, x {transient, persistent} x {generic, deadline exceeded, cancelled}"})
 	}
 
 	// batch check: an entry whose check hits the fault never says allowed together with an error
